@@ -11,7 +11,7 @@ import itertools
 from hypothesis import strategies as st
 
 from harness import hyp
-from harness.bus import Bus, NonTermination
+from harness.bus import Bus, NonTermination, run_interleaved
 from harness.model_gear import GearModel
 from harness.runner import Result, library_frame
 
@@ -19,13 +19,28 @@ ID = "C08"
 LEVEL = "exploration"
 RULE = ("healthy: (device-type list) / (group set) / (current set, requested set, destination kind) tuples, each distinct "
         "by construction; adversarial: answer streams, distinct by construction; non-trivial = multi-type list, or a "
-        "stream that reaches the QUERY NEXT DEVICE TYPE loop, or a SetGroups pair with current != requested")
+        "stream that reaches the QUERY NEXT DEVICE TYPE loop, or a SetGroups pair with current != requested; well-behaved "
+        "device-type lists of every length 0..254 (first n / last n / evenly spread types), on the unit model and as answer "
+        "streams; histories on one line (units keep their state; the caller edits the sets / lists the queries returned and "
+        "hands them back to SetGroups), listed and Hypothesis-generated, non-trivial = an edit of a returned object with a "
+        "sequence after it; several "
+        "sequences in flight: (2 or 3 jobs of any of the kinds above with their unit states, advance order) - every ordered "
+        "pair of a palette of jobs (same short address, different device-type lists / memberships / requested sets / "
+        "destinations / answer streams, part of it seed-derived) x a list of advance orders (round-robin, reversed, blocks "
+        "of 2 and 3, head starts, one sequence completely inside the other, strictly sequential), every order of the first "
+        "eight advances for some pairs, triples, plus Hypothesis-generated tuples; non-trivial = at least two of the "
+        "sequences overlap in time (neither finished before the other started) and the jobs are not all identical")
 ASSUMPTIONS = [
     "a unit that answers 255 to QUERY DEVICE TYPE and then 254 at once, or 255 to QUERY NEXT DEVICE TYPE, is "
     "misbehaving in a way the statement does not classify: raising or carrying on are both accepted",
     "two or more simultaneous answers are always seen as a framing error (as the library documents)",
     "a group destination is only used when the unit is a member of that group at the start (implicit precondition of "
     "group addressing)",
+    "what a query sequence returns belongs to the caller: editing it (adding a group to the returned set, appending to the "
+    "returned list) and handing it back to SetGroups is ordinary use and must not change what later sequences report or do",
+    "sequences in flight at the same time on separate buses (one driver per DALI line in one process) are independent: "
+    "each must put on its bus, do to its units and return (or raise) exactly what it does when it runs alone on a fresh "
+    "identical bus",
 ]
 
 # "err" = framing error carrying harmless bits; "err254"/"err255" = framing error whose bits read as the
@@ -40,7 +55,27 @@ def _load():
 
 
 # ------------------------------------------------------------ healthy ----
-def case_types(case):
+class Job:
+    """One sequence prepared against its own units and bus; judged once its outcome is known."""
+
+    def __init__(self, kind, case, bus, seq, where, **more):
+        self.kind, self.case, self.bus, self.seq, self.where = kind, case, bus, seq, where
+        self.__dict__.update(more)
+
+
+def run_alone(job):
+    """-> ("returned", value) | ("raised", exception)"""
+    try:
+        return ("returned", job.bus.run(job.seq()))
+    except Exception as e:  # noqa: classified by the judge
+        return ("raised", e)
+
+
+def _harness_error(e):
+    return library_frame(e.__traceback__) is None and not isinstance(e, NonTermination)
+
+
+def prep_types(case):
     """{"kind": "types", "types": [...], "short": a, "as_int": bool}"""
     sequences, address, exc = _load()
     types = case["types"]
@@ -49,20 +84,31 @@ def case_types(case):
     other = GearModel(short=(a + 1) % 64, device_types=[3])
     bus = Bus([unit, other], max_commands=300)
     where = "QueryDeviceTypes on a unit with types %r" % (types,)
-    try:
-        r = bus.run(sequences.QueryDeviceTypes(a if case.get("as_int") else address.GearShort(a)))
-    except NonTermination:
-        return [("C08:types-nontermination", "%s: more than 300 commands" % where)]
-    except exc.DALISequenceError as e:
-        sig = "C08:types-healthy-rejected" + (":includes-type-0" if 0 in types and len(types) > 1 else "")
-        return [(sig, "%s raised DALISequenceError(%s)" % (where, e))]
-    except Exception as e:  # noqa
+    return Job("types", case, bus, lambda: sequences.QueryDeviceTypes(a if case.get("as_int") else address.GearShort(a)), where)
+
+
+def judge_types(job, oc):
+    sequences, address, exc = _load()
+    types, where = job.case["types"], job.where
+    if oc[0] == "raised":
+        e = oc[1]
+        if isinstance(e, NonTermination):
+            return [("C08:types-nontermination", "%s: more than 300 commands" % where)]
+        if isinstance(e, exc.DALISequenceError):
+            sig = "C08:types-healthy-rejected" + (":includes-type-0" if 0 in types and len(types) > 1 else "")
+            return [(sig, "%s raised DALISequenceError(%s)" % (where, e))]
         if library_frame(e.__traceback__) is None:
-            raise
+            raise e
         return [("C08:types-raised:%s" % type(e).__name__, "%s raised %r" % (where, e))]
+    r = oc[1]
     if r != sorted(types):
         return [("C08:types-wrong", "%s returned %r" % (where, r))]
     return []
+
+
+def case_types(case):
+    job = prep_types(case)
+    return judge_types(job, run_alone(job))
 
 
 DEST_KINDS = ["short", "int", "group", "broadcast", "unaddressed"]
@@ -84,26 +130,38 @@ def bits_to_set(m):
     return set(i for i in range(16) if (m >> i) & 1)
 
 
-def case_groups(case):
-    """{"kind": "qgroups", "mask": m}"""
+def prep_groups(case):
+    """{"kind": "qgroups", "mask": m[, "short": a]}"""
     sequences, address, exc = _load()
     cur = bits_to_set(case["mask"])
-    a = 5 + case["mask"] % 50
+    a = case.get("short", 5 + case["mask"] % 50)
     unit = GearModel(short=a, groups=cur)
     bus = Bus([unit, GearModel(short=(a + 1) % 64, groups={1, 9})], max_commands=50)
-    try:
-        r = bus.run(sequences.QueryGroups(address.GearShort(a)))
-    except Exception as e:  # noqa
-        if library_frame(e.__traceback__) is None and not isinstance(e, NonTermination):
-            raise
+    return Job("qgroups", case, bus, lambda: sequences.QueryGroups(address.GearShort(a)),
+               "QueryGroups on a unit in groups %r" % (sorted(cur),), cur=cur)
+
+
+def judge_groups(job, oc):
+    cur = job.cur
+    if oc[0] == "raised":
+        e = oc[1]
+        if _harness_error(e):
+            raise e
         return [("C08:qgroups-raised:%s" % type(e).__name__, "QueryGroups on groups %r raised %r" % (sorted(cur), e))]
+    r = oc[1]
     if r != cur or not isinstance(r, set):
         return [("C08:qgroups-wrong", "QueryGroups on a unit in groups %r returned %r" % (sorted(cur), r))]
     return []
 
 
-def case_setgroups(case):
-    """{"kind": "setgroups", "cur": mask, "req": mask, "dest": kind, "g": group used for a group destination}"""
+def case_groups(case):
+    job = prep_groups(case)
+    return judge_groups(job, run_alone(job))
+
+
+def prep_setgroups(case):
+    """{"kind": "setgroups", "cur": mask, "req": mask, "dest": kind, "g": group used for a group destination}
+    None when the precondition of a group destination does not hold."""
     sequences, address, exc = _load()
     cur, req = bits_to_set(case["cur"]), bits_to_set(case["req"])
     kind = case["dest"]
@@ -111,7 +169,7 @@ def case_setgroups(case):
     g = case.get("g", 0)
     if kind == "group":
         if g not in cur:
-            return []          # precondition: the unit must be reachable through the group
+            return None        # precondition: the unit must be reachable through the group
     short = None if kind == "unaddressed" else a
     unit = GearModel(short=short, groups=cur)
     bystander = GearModel(short=40, groups={2, 11})     # must not be touched by short/int destinations
@@ -128,16 +186,23 @@ def case_setgroups(case):
         units = units + extra
     bus = Bus(units, max_commands=100)
     where = "SetGroups(%s, %r) on a unit in groups %r" % (kind if kind != "group" else "group %d" % g, sorted(req), sorted(cur))
-    try:
-        # "groups is a set of integers": a set or a frozenset; the caller keeps using its own object afterwards
-        given = frozenset(req) if (case["cur"] + case["req"]) % 2 else set(req)
-        bus.run(sequences.SetGroups(make_dest(address, kind, a, g), given))
-        if set(given) != req:
-            return [("C08:setgroups-modified-callers-set", "%s: the caller's set is now %r" % (where, sorted(given)))]
-    except Exception as e:  # noqa
-        if library_frame(e.__traceback__) is None and not isinstance(e, NonTermination):
-            raise
+    # "groups is a set of integers": a set or a frozenset; the caller keeps using its own object afterwards
+    given = frozenset(req) if (case["cur"] + case["req"]) % 2 else set(req)
+    return Job("setgroups", case, bus, lambda: sequences.SetGroups(make_dest(address, kind, a, g), given), where,
+               cur=cur, req=req, given=given, unit=unit, bystander=bystander, extra=extra, g=g)
+
+
+def judge_setgroups(job, oc):
+    case, bus, where = job.case, job.bus, job.where
+    cur, req, given, unit, bystander, extra, g = job.cur, job.req, job.given, job.unit, job.bystander, job.extra, job.g
+    kind = case["dest"]
+    if oc[0] == "raised":
+        e = oc[1]
+        if _harness_error(e):
+            raise e
         return [("C08:setgroups-raised:%s" % type(e).__name__, "%s raised %r" % (where, e))]
+    if set(given) != req:
+        return [("C08:setgroups-modified-callers-set", "%s: the caller's set is now %r" % (where, sorted(given)))]
     out = []
     for j, u in enumerate(extra):
         if u.groups != req:
@@ -161,6 +226,13 @@ def case_setgroups(case):
             out.append(("C08:setgroups-unnecessary-commands", "%s issued adds %r removes %r others %r"
                         % (where, adds, rems, others)))
     return out
+
+
+def case_setgroups(case):
+    job = prep_setgroups(case)
+    if job is None:
+        return []
+    return judge_setgroups(job, run_alone(job))
 
 
 # -------------------------------------------------------- adversarial ----
@@ -236,28 +308,34 @@ def ref_types(stream):
     return accept, raise_ok, None
 
 
-def case_stream(case):
+def prep_stream(case):
     """{"kind": "stream", "stream": [...]}"""
     sequences, address, exc = _load()
     stream = case["stream"]
-    accept, raise_ok, _ = ref_types(stream)
     bus = ScriptBus(stream, max_commands=300)
     where = "QueryDeviceTypes against answer stream %r(+repeat)" % (stream,)
-    try:
-        r = bus.run(sequences.QueryDeviceTypes(address.GearShort(3)))
-    except NonTermination:
-        return [("C08:types-nontermination", "%s: still asking after 300 commands" % where)]
-    except exc.DALISequenceError:
-        if not raise_ok:
-            return [("C08:types-healthy-rejected" + (":includes-type-0" if 0 in stream[1:] else ""),
-                     "%s raised DALISequenceError but the stream is a conforming answer for %r" % (where, sorted(accept)))]
-        if bus.n > min(258, len(stream) + 2 + 256):
-            return [("C08:types-late-stop", "%s stopped only after %d commands" % (where, bus.n))]
-        return []
-    except Exception as e:  # noqa
+    return Job("stream", case, bus, lambda: sequences.QueryDeviceTypes(address.GearShort(3)), where)
+
+
+def judge_stream(job, oc):
+    sequences, address, exc = _load()
+    stream, bus, where = job.case["stream"], job.bus, job.where
+    accept, raise_ok, _ = ref_types(stream)
+    if oc[0] == "raised":
+        e = oc[1]
+        if isinstance(e, NonTermination):
+            return [("C08:types-nontermination", "%s: still asking after 300 commands" % where)]
+        if isinstance(e, exc.DALISequenceError):
+            if not raise_ok:
+                return [("C08:types-healthy-rejected" + (":includes-type-0" if 0 in stream[1:] else ""),
+                         "%s raised DALISequenceError but the stream is a conforming answer for %r" % (where, sorted(accept)))]
+            if bus.n > min(258, len(stream) + 2 + 256):
+                return [("C08:types-late-stop", "%s stopped only after %d commands" % (where, bus.n))]
+            return []
         if library_frame(e.__traceback__) is None:
-            raise
+            raise e
         return [("C08:types-raised:%s" % type(e).__name__, "%s raised %r" % (where, e))]
+    r = oc[1]
     if not isinstance(r, list) or tuple(r) not in accept:
         kind = "framing-error-taken-as-data" if any(x in ERRS for x in stream[:bus.n]) else \
             "out-of-order-accepted" if stream[0] == 255 else "wrong"
@@ -268,51 +346,547 @@ def case_stream(case):
     return []
 
 
-def case_qgroups_stream(case):
+def case_stream(case):
+    job = prep_stream(case)
+    return judge_stream(job, run_alone(job))
+
+
+def prep_qgroups_stream(case):
     """{"kind": "gstream", "stream": [a0, a1]}"""
     sequences, address, exc = _load()
     stream = case["stream"]
     bus = ScriptBus(stream, max_commands=20)
+    return Job("gstream", case, bus, lambda: sequences.QueryGroups(address.GearShort(3)),
+               "QueryGroups against answers %r" % (stream,))
+
+
+def judge_qgroups_stream(job, oc):
+    sequences, address, exc = _load()
+    stream, where = job.case["stream"], job.where
     bad = any(x == "none" or x in ERRS for x in stream[:2])
-    where = "QueryGroups against answers %r" % (stream,)
-    try:
-        r = bus.run(sequences.QueryGroups(address.GearShort(3)))
-    except exc.DALISequenceError:
-        return [] if bad else [("C08:qgroups-healthy-rejected", where)]
-    except Exception as e:  # noqa
-        if library_frame(e.__traceback__) is None and not isinstance(e, NonTermination):
-            raise
+    if oc[0] == "raised":
+        e = oc[1]
+        if isinstance(e, exc.DALISequenceError):
+            return [] if bad else [("C08:qgroups-healthy-rejected", where)]
+        if _harness_error(e):
+            raise e
         return [("C08:qgroups-raised:%s" % type(e).__name__, "%s raised %r" % (where, e))]
+    r = oc[1]
     if bad:
         return [("C08:qgroups-wrong-data", "%s returned %r instead of raising DALISequenceError" % (where, r))]
     exp = bits_to_set(stream[0] | (stream[1] << 8))
     if r != exp:
         return [("C08:qgroups-wrong", "%s returned %r expected %r" % (where, r, exp))]
-    # SetGroups on a short address must propagate the failure of its queries
     return []
 
 
-def case_setgroups_fault(case):
+def case_qgroups_stream(case):
+    job = prep_qgroups_stream(case)
+    return judge_qgroups_stream(job, run_alone(job))
+
+
+def prep_setgroups_fault(case):
     """{"kind": "sgfault", "stream": [a0, a1]} - SetGroups(short) when the group queries fail."""
     sequences, address, exc = _load()
     stream = case["stream"] + [0]
     bus = ScriptBus(stream, max_commands=40)
     where = "SetGroups(short, {1,2}) when the group queries answer %r" % (case["stream"],)
-    try:
-        bus.run(sequences.SetGroups(address.GearShort(3), {1, 2}))
-    except exc.DALISequenceError:
-        return []
-    except Exception as e:  # noqa
-        if library_frame(e.__traceback__) is None and not isinstance(e, NonTermination):
-            raise
+    return Job("sgfault", case, bus, lambda: sequences.SetGroups(address.GearShort(3), {1, 2}), where)
+
+
+def judge_setgroups_fault(job, oc):
+    sequences, address, exc = _load()
+    where = job.where
+    if oc[0] == "raised":
+        e = oc[1]
+        if isinstance(e, exc.DALISequenceError):
+            return []
+        if _harness_error(e):
+            raise e
         return [("C08:setgroups-raised:%s" % type(e).__name__, "%s raised %r" % (where, e))]
+    # SetGroups on a short address must propagate the failure of its queries
     return [("C08:setgroups-ignored-query-failure", "%s completed normally" % where)]
+
+
+def case_setgroups_fault(case):
+    job = prep_setgroups_fault(case)
+    return judge_setgroups_fault(job, run_alone(job))
+
+
+# ------------------------------------------------------------ histories ----
+HISTORY_SHORTS = [17, 18, 40]
+
+
+def case_history(case):
+    """{"kind": "history", "units": [{"groups": mask, "types": [...]}, ...], "steps": [...]}: one program working on
+    one line for a while.  The units keep their state from step to step; what the sequences return is kept in numbered
+    slots and the caller does with it what callers do with a set / a list of their own: edits it, hands it back.
+      ["qgroups", k, as_int]          QueryGroups(unit k)                        -> new slot
+      ["types", k, as_int]            QueryDeviceTypes(unit k)                   -> new slot
+      ["edit", j, how, arg]           the caller edits the object in slot j: add / discard / clear / update(mask) for a
+                                      set, append / pop / clear for a list (skipped if it does not apply)
+      ["setgroups", k, src, as_int]   SetGroups(unit k, groups); src = ["slot", j] (the very object, edited or not;
+                                      skipped unless it is a set) or ["mask", m] (a new set)
+    Every sequence is judged as it is judged on its own: the query returns exactly what the unit holds NOW, SetGroups
+    leaves exactly the requested membership with exactly the necessary commands and touches nothing else."""
+    sequences, address, exc = _load()
+    units = [GearModel(short=HISTORY_SHORTS[k], groups=bits_to_set(u["groups"]), device_types=u["types"])
+             for k, u in enumerate(case["units"])]
+    slots = []
+    edited = False
+    done = []
+
+    def sig(tail):
+        return ("C08:history-after-caller-edited-a-result:" if edited else "C08:") + tail
+
+    def dest(k, as_int):
+        return HISTORY_SHORTS[k] if as_int else address.GearShort(HISTORY_SHORTS[k])
+
+    for step in case["steps"]:
+        op = step[0]
+        where = "step %d %r of a history on units %s after %r" % (
+            len(done), step, [(sorted(u.groups), u.device_types) for u in units], done)
+        if op == "edit":
+            _, j, how, arg = step
+            if j >= len(slots) or slots[j] is None:
+                continue
+            o = slots[j]
+            if isinstance(o, set) and how in ("add", "discard", "clear", "update"):
+                {"add": lambda: o.add(arg), "discard": lambda: o.discard(arg), "clear": o.clear,
+                 "update": lambda: o.update(bits_to_set(arg))}[how]()
+            elif isinstance(o, list) and how in ("append", "pop", "clear"):
+                {"append": lambda: o.append(arg), "pop": lambda: o and o.pop(), "clear": o.clear}[how]()
+            else:
+                continue
+            edited = True
+            done.append(step)
+            continue
+        k = step[1]
+        unit = units[k]
+        before = [set(u.groups) for u in units]
+        bus = Bus(units, max_commands=300)
+        if op == "qgroups":
+            oc = run_alone(Job(op, case, bus, lambda: sequences.QueryGroups(dest(k, step[2])), where))
+        elif op == "types":
+            oc = run_alone(Job(op, case, bus, lambda: sequences.QueryDeviceTypes(dest(k, step[2])), where))
+        else:
+            src = step[2]
+            if src[0] == "slot":
+                if src[1] >= len(slots) or not isinstance(slots[src[1]], set):
+                    continue
+                given = slots[src[1]]
+            else:
+                given = bits_to_set(src[1])
+            req = set(given)
+            oc = run_alone(Job(op, case, bus, lambda: sequences.SetGroups(dest(k, step[3]), given), where))
+        done.append(step)
+        if oc[0] == "raised":
+            e = oc[1]
+            if _harness_error(e):
+                raise e
+            return [(sig("%s-raised:%s" % (op, type(e).__name__)), "%s raised %r" % (where, e))]
+        r = oc[1]
+        if op == "qgroups":
+            slots.append(r)
+            if r != unit.groups or not isinstance(r, set):
+                return [(sig("qgroups-wrong"), "%s returned %r, the unit is in groups %r" % (where, r, sorted(unit.groups)))]
+        elif op == "types":
+            slots.append(r)
+            if r != sorted(unit.device_types) or not isinstance(r, list):
+                return [(sig("types-wrong"), "%s returned %r" % (where, r))]
+        else:
+            kind = "int" if step[3] else "short"
+            if set(given) != req:
+                return [(sig("setgroups-modified-callers-set"), "%s: the caller's set is now %r" % (where, sorted(given)))]
+            if unit.groups != req:
+                return [(sig("setgroups-membership:" + kind), "%s (requested %r) left the unit in groups %r"
+                         % (where, sorted(req), sorted(unit.groups)))]
+            if any(u.groups != b for j, (u, b) in enumerate(zip(units, before)) if j != k):
+                return [(sig("setgroups-touched-bystander"), "%s changed another unit: now %r" % (where, [sorted(u.groups) for u in units]))]
+            changes = [(v & 0xF0, v & 0x0F) for (bits, v, tw, ans) in bus.trace[2:]]
+            adds = sorted(gq for (o_, gq) in changes if o_ == 0x60)
+            rems = sorted(gq for (o_, gq) in changes if o_ == 0x70)
+            others = [c for c in changes if c[0] not in (0x60, 0x70)]
+            cur = before[k]
+            if adds != sorted(req - cur) or rems != sorted(cur - req) or others or len(bus.trace) != 2 + len(adds) + len(rems):
+                return [(sig("setgroups-unnecessary-commands"), "%s (requested %r) issued adds %r removes %r others %r"
+                         % (where, sorted(req), adds, rems, others))]
+    return []
+
+
+def history_nontrivial(case):
+    """An edit of a returned object with a sequence after it."""
+    seen_result = seen_edit = False
+    for step in case["steps"]:
+        if step[0] == "edit":
+            seen_edit = seen_edit or seen_result
+        else:
+            if seen_edit:
+                return True
+            if step[0] in ("qgroups", "types"):
+                seen_result = True
+    return False
+
+
+def fixed_histories(seed):
+    def m(k):
+        return (seed * 40503 + k * 25717 + 0x1234) & 0xFFFF
+    out = []
+    for mi, mask in enumerate([0x0000, 0x0001, 0x8000, 0x1088, 0x00FF, 0xFFFF, m(1), m(2)]):
+        other = (~mask & 0xFFFF) if mi % 2 else m(3 + mi)
+        inn = [g for g in range(16) if (mask >> g) & 1]
+        out_ = [g for g in range(16) if not (mask >> g) & 1]
+        edits = [["clear", None], ["update", 0xFFFF], ["update", other]]
+        if out_:
+            edits.append(["add", out_[mi % len(out_)]])
+        if inn:
+            edits.append(["discard", inn[mi % len(inn)]])
+        types = [[], [6], [0, 6, 8], [1, 6, 8, 253]][mi % 4]
+        units = [{"groups": mask, "types": types}, {"groups": mask, "types": types}, {"groups": other, "types": [3]}]
+        for ei, (how, arg) in enumerate(edits):
+            ai = bool((mi + ei) & 1)
+            e = ["edit", 0, how, arg]
+            for steps in (
+                    [["qgroups", 0, ai], e, ["qgroups", 0, not ai]],
+                    [["qgroups", 0, ai], e, ["qgroups", 1, ai]],
+                    [["qgroups", 0, ai], e, ["setgroups", 0, ["slot", 0], ai], ["qgroups", 0, ai]],     # read-modify-write
+                    [["qgroups", 0, ai], e, ["setgroups", 1, ["mask", other], not ai], ["qgroups", 1, ai]],
+                    [["qgroups", 0, ai], e, ["setgroups", 1, ["mask", mask ^ 0x0180], ai], ["qgroups", 0, ai]],
+                    [["qgroups", 0, ai], ["qgroups", 1, ai], e, ["setgroups", 2, ["slot", 1], ai], ["qgroups", 2, ai], ["qgroups", 1, ai]],
+                    [["setgroups", 2, ["mask", mask], ai], ["qgroups", 2, ai], ["edit", 0, how, arg], ["qgroups", 0, ai], ["qgroups", 2, ai]]):
+                out.append({"kind": "history", "units": units, "steps": steps})
+        for how, arg in (["append", 99], ["clear", None], ["pop", None]):
+            out.append({"kind": "history", "units": units,
+                        "steps": [["types", 0, False], ["edit", 0, how, arg], ["types", 0, True], ["types", 1, False], ["types", 2, False]]})
+    return out
+
+
+def history_st():
+    @st.composite
+    def gen(draw):
+        mask = draw(st.one_of(st.integers(0, 0xFFFF), st.sampled_from([0, 1, 0x8000, 0xFFFF, 0x1088])))
+        masks = [mask, draw(st.sampled_from([mask, mask, mask ^ 0x0100])), draw(st.integers(0, 0xFFFF))]
+        tl = st.lists(st.sampled_from([0, 1, 6, 7, 8, 253]), unique=True, max_size=4).map(sorted)
+        t0 = draw(tl)
+        units = [{"groups": masks[0], "types": t0}, {"groups": masks[1], "types": draw(st.sampled_from([t0, t0, [6]]))},
+                 {"groups": masks[2], "types": draw(tl)}]
+        steps = []
+        nres = 0
+        for _ in range(draw(st.integers(2, 8))):
+            op = draw(st.sampled_from(["qgroups", "qgroups", "qgroups", "types", "edit", "edit", "setgroups", "setgroups"]))
+            if op in ("qgroups", "types"):
+                steps.append([op, draw(st.integers(0, 2)), draw(st.booleans())])
+                nres += 1
+            elif op == "edit":
+                if not nres:
+                    continue
+                how = draw(st.sampled_from(["add", "discard", "clear", "update", "append", "pop"]))
+                arg = draw(st.integers(0, 0xFFFF)) if how == "update" else draw(st.integers(0, 15)) if how in ("add", "discard") else 99
+                steps.append(["edit", draw(st.integers(0, nres - 1)), how, arg])
+            else:
+                src = ["slot", draw(st.integers(0, nres - 1))] if nres and draw(st.booleans()) else \
+                    ["mask", draw(st.one_of(st.integers(0, 0xFFFF), st.sampled_from(masks)))]
+                steps.append(["setgroups", draw(st.integers(0, 2)), src, draw(st.booleans())])
+        return {"kind": "history", "units": units, "steps": steps}
+    return gen()
+
+
+def long_types(n, shape):
+    """n device types out of 0..253, ascending: the first n, the last n, or spread evenly."""
+    if shape == "first":
+        return list(range(n))
+    if shape == "last":
+        return list(range(254 - n, 254))
+    return sorted(set((i * 254) // n for i in range(n))) if n else []
+
+
+PREP = {"types": prep_types, "qgroups": prep_groups, "setgroups": prep_setgroups, "stream": prep_stream,
+        "gstream": prep_qgroups_stream, "sgfault": prep_setgroups_fault}
+JUDGE = {"types": judge_types, "qgroups": judge_groups, "setgroups": judge_setgroups, "stream": judge_stream,
+         "gstream": judge_qgroups_stream, "sgfault": judge_setgroups_fault}
+
+
+# --------------------------------------------------- several sequences in flight ----
+LAST_INTER = [None]     # (id(case), did the sequences really overlap in time) of the most recent interleaved case
+
+
+def _snap(o):
+    """Plain-data copy of a model object (every attribute, recursively)."""
+    if o is None or isinstance(o, (bool, int, float, str)):
+        return o
+    if isinstance(o, (list, tuple)):
+        return [_snap(x) for x in o]
+    if isinstance(o, (set, frozenset)):
+        return sorted((_snap(x) for x in o), key=repr)
+    if isinstance(o, dict):
+        return [[repr(k), _snap(v)] for k, v in sorted(o.items(), key=lambda kv: repr(kv[0]))]
+    if hasattr(o, "__dict__"):
+        return [[k, _snap(v)] for k, v in sorted(vars(o).items()) if not callable(v)]
+    return repr(o)
+
+
+def _end_state(job):
+    """Everything the bus carried and everything its units hold when the sequence is over."""
+    bus = job.bus
+    sent = [(len(c.frame), c.frame.as_integer, bool(c.sendtwice), c.devicetype) for c in bus.commands]
+    st = [("commands put on the bus", sent), ("frames and answers", [list(t) for t in bus.trace])]
+    for k, u in enumerate(bus.units):
+        for name, v in _snap(u):
+            st.append(("unit #%d %s" % (k, name), v))
+    if getattr(job, "given", None) is not None:
+        st.append(("caller's set", sorted(job.given)))
+    return st
+
+
+def _result(oc):
+    if oc[0] == "raised":
+        return ("raised", type(oc[1]).__name__, str(oc[1]))
+    v = oc[1]
+    return ("returned", type(v).__name__, sorted(v) if isinstance(v, (set, frozenset)) else v)
+
+
+def overlapping(order, n):
+    """Do at least two of the n sequences overlap in time (neither finished before the other started)?"""
+    first, last = {}, {}
+    for pos, i in enumerate(order):
+        first.setdefault(i, pos)
+        last[i] = pos
+    return any(first[i] < last[j] and first[j] < last[i] for i in first for j in first if i < j)
+
+
+def case_interleaved(case):
+    """{"kind": "interleaved", "jobs": [case, ...], "schedule": [...], "cycle": [...]}: several sequences in flight at
+    once, each on its own bus against its own units, advanced command by command in the order case['schedule'] (then
+    case['cycle'] repeatedly).  Each must satisfy the single-sequence oracle, return / raise what it returns / raises
+    alone, and its bus must have carried, and its units must hold, exactly what they do when the sequence runs alone."""
+    subs = case["jobs"]
+    jobs = [PREP[c["kind"]](c) for c in subs]
+    if any(j is None for j in jobs):
+        raise ValueError("interleaved job with an unmet precondition: %r" % (case,))
+    order = []
+    ocs = run_interleaved([(j.bus, j.seq) for j in jobs], case.get("schedule") or (), case.get("cycle") or None, order=order)
+    LAST_INTER[0] = (id(case), overlapping(order, len(jobs)))
+    out, seen = [], set()
+
+    def add(sig, msg):
+        if sig not in seen:
+            seen.add(sig)
+            out.append((sig, msg))
+
+    for i, (job, oc) in enumerate(zip(jobs, ocs)):
+        vs = JUDGE[job.kind](job, oc)
+        ref = PREP[job.kind](subs[i])
+        roc = run_alone(ref)
+        rvs = JUDGE[ref.kind](ref, roc)
+        for sig, msg in rvs:                  # not a matter of interleaving: the sequence fails on its own
+            add(sig, msg)
+        alone = set(sig for sig, _ in rvs)
+        why = None
+        if _result(oc) != _result(roc):
+            why = "outcome %r, alone %r" % (_result(oc), _result(roc))
+        else:
+            for (name, a), (rname, r) in zip(_end_state(job), _end_state(ref)):
+                if name != rname or a != r:
+                    why = "%s: %r, alone %r" % (name, a, r)
+                    break
+        if why is None and [v for v in vs if v[0] not in alone]:
+            why = "%s: %s" % [v for v in vs if v[0] not in alone][0]
+        if why:
+            add("C08:interleaved-sequences-interfere:" + job.kind,
+                "sequence #%d of %d in flight at the same time on separate buses (advance order %s; the others: %s): %s: %s"
+                % (i, len(jobs), order, "; ".join(j.where for k, j in enumerate(jobs) if k != i), job.where, why))
+    return out
 
 
 def run_case(case):
     k = case["kind"]
     return {"types": case_types, "qgroups": case_groups, "setgroups": case_setgroups, "stream": case_stream,
-            "gstream": case_qgroups_stream, "sgfault": case_setgroups_fault}[k](case)
+            "gstream": case_qgroups_stream, "sgfault": case_setgroups_fault, "interleaved": case_interleaved,
+            "history": case_history}[k](case)
+
+
+def _inter(jobs, schedule, cycle=None):
+    return {"kind": "interleaved", "jobs": jobs, "schedule": list(schedule), "cycle": list(cycle or [])}
+
+
+# (schedule, cycle) for two sequences: the schedule is used first, then the cycle repeatedly; a cycle naming only a
+# finished sequence falls back to round-robin (so ([0, 0], [1]) = #0 advances twice, then #1 runs from start to end
+# inside #0, then #0 finishes, and ([], [0]) = strictly one after the other)
+PAIR_ORDERS = [
+    ([], [0, 1]), ([], [1, 0]),                                                 # round-robin, reversed
+    ([], [0, 0, 1, 1]), ([], [1, 1, 0, 0]), ([], [0, 0, 0, 1, 1, 1]), ([], [1, 1, 1, 0, 0, 0]),    # blocks of 2 / 3
+    ([], [0, 1, 1]), ([], [0, 0, 1]), ([], [0, 1, 1, 1]),                         # uneven speeds
+    ([0], [1, 0]), ([0, 0], [1, 0]), ([0, 0, 0], [1, 0]), ([1], [0, 1]), ([1, 1, 1], [0, 1]),      # head starts
+    ([0], [1]), ([0, 0], [1]), ([0, 0, 0], [1]), ([0] * 5, [1]),                  # #1 completely inside #0
+    ([1], [0]), ([1, 1], [0]), ([1, 1, 1], [0]), ([1] * 5, [0]),                  # #0 completely inside #1
+    ([], [0]), ([], [1]),                                                       # strictly sequential
+]
+TRIPLE_ORDERS = [([], [0, 1, 2]), ([], [2, 1, 0]), ([], [1, 2, 0]), ([0], [2, 1, 0]), ([0, 0], [1, 2, 0]), ([0, 1], [2, 0, 1]),
+                 ([], [0, 0, 1, 1, 2, 2]), ([0, 1, 1], [2, 0, 1]), ([0, 0, 0, 1], [2, 1, 0]), ([0], [1, 2]), ([0, 1], [2]),
+                 ([], [0, 0, 0, 1, 1, 1, 2, 2, 2]), ([], [0])]
+
+
+def eight_orders():
+    """Every order of the first eight advances of two sequences in which each advances four times."""
+    out = []
+    for ones in itertools.combinations(range(8), 4):
+        out.append([1 if i in ones else 0 for i in range(8)])
+    return out
+
+
+def palette(seed, extra):
+    """Jobs whose units sit at the same short address on their separate buses but hold different states; `extra`
+    further seed-derived ones."""
+    def m(k):
+        return (seed * 40503 + k * 25717 + 0x1234) & 0xFFFF
+
+    def sg(cur, req, dest, g=None, others=None):
+        c = {"kind": "setgroups", "cur": cur, "req": req, "dest": dest}
+        if dest == "group":
+            c["g"] = g if g is not None else sorted(bits_to_set(cur))[-1]
+        if others is not None:
+            c["others"] = others
+        return c
+
+    def ty(types, as_int=False, short=17):
+        return {"kind": "types", "types": types, "short": short, "as_int": as_int}
+
+    def qg(mask, short=17):
+        return {"kind": "qgroups", "mask": mask, "short": short}
+
+    jobs = [ty([]), ty([6]), ty([0], True), ty([0, 6, 8]), ty([1, 6], True), ty([6, 8, 253]), ty([0, 1, 6, 8, 253]),
+            qg(0x0000), qg(0xFFFF), qg(0x00FF), qg(0x1088), qg(m(1)),
+            sg(0x1088, 0x0006, "short"), sg(0x0006, 0x1088, "int"), sg(0x00FF, 0xFF00, "short"), sg(0xFFFF, 0x0000, "int"),
+            sg(0x0000, 0xFFFF, "short"), sg(0x8081, 0x4242, "group", 7, 2), sg(0x0F0F, 0x8F01, "group", 0, 1),
+            sg(0x0F0F, 0x00F0, "broadcast", others=2), sg(0xA5A5, 0xA5A5, "broadcast", others=0),
+            sg(0x1234, 0x4321, "unaddressed", others=1), sg(m(2), m(3), "short"), sg(m(4), m(5), "int"),
+            {"kind": "stream", "stream": [255, 1, 6, 254]}, {"kind": "stream", "stream": [255, 0, 6, 8, 253, 254]},
+            {"kind": "stream", "stream": [255, 1, 6, 6]}, {"kind": "stream", "stream": [255, 7, "err"]},
+            {"kind": "stream", "stream": ["none"]},
+            {"kind": "gstream", "stream": [0x55, 0x80]}, {"kind": "gstream", "stream": [1, "err"]},
+            {"kind": "sgfault", "stream": [1, "none"]}]
+    dests = ["short", "int", "group", "broadcast", "unaddressed"]
+    for k in range(extra):
+        r = m(10 + 3 * k)
+        if k % 3 == 0:
+            n = 2 + r % 5
+            jobs.append(ty(sorted(set((r >> (2 * j)) % 254 for j in range(n))), bool(k & 1), short=17 if k % 2 else r % 64))
+        elif k % 3 == 1:
+            jobs.append(qg(r, short=17 if k % 2 else (r >> 4) % 64))
+        else:
+            d = dests[(k // 3) % 5]
+            cur = m(11 + 3 * k) | (1 if d == "group" else 0)
+            jobs.append(sg(cur, r, d, others=(r >> 3) % 3))
+    return jobs
+
+
+def _differ(case):
+    return any(j != case["jobs"][0] for j in case["jobs"][1:])
+
+
+def _kinds(case):
+    return "+".join(j["kind"] for j in case["jobs"])
+
+
+def _shard_inter(arg):
+    what = arg[0]
+    res = Result()
+
+    def go(case, label):
+        res.count()
+        vs = run_case(case)
+        if LAST_INTER[0][1] and _differ(case):
+            res.nontrivial()
+        res.label(label)
+        for sig, msg in vs:
+            res.violation(sig, case, msg)
+
+    if what == "pairs":
+        # every job of the palette as #1 against job number `first` as #0, in every listed advance order
+        # (quick tier: every ostride-th order, rotating with the pair, so that neighbouring pairs cover all orders)
+        _, seed, extra, first, ostride = arg
+        pal = palette(seed, extra)
+        a = pal[first]
+        for bi, b in enumerate(pal):
+            for oi, (sched, cyc) in enumerate(PAIR_ORDERS):
+                if (oi + bi + first + seed) % ostride:
+                    continue
+                c = _inter([a, b], sched, cyc)
+                go(c, "interleaved:" + _kinds(c))
+        if first == 0:
+            res.sample(_inter([pal[3], pal[12]], [0], [1, 0]), cls="interleaved pair")
+    elif what == "eight":
+        _, seed, extra, stride, offset = arg
+        pal = palette(seed, extra)
+        long_ = [j for j in pal if j["kind"] in ("setgroups", "stream") or (j["kind"] == "types" and len(j["types"]) > 1)]
+        k = 0
+        for ai, a in enumerate(long_):
+            for bi, b in enumerate(long_):
+                k += 1
+                if k % stride != offset:
+                    continue
+                for order in eight_orders():
+                    c = _inter([a, b], order)
+                    go(c, "interleaved:first-eight-advances:" + _kinds(c))
+    elif what == "triples":
+        _, seed, extra, stride, offset = arg
+        pal = palette(seed, extra)
+        n = len(pal)
+        for i in range(offset, n, stride):
+            for d1, d2 in ((1, 2), (5, 11), (13, 7), (0, 9)):
+                for sched, cyc in TRIPLE_ORDERS:
+                    go(_inter([pal[i], pal[(i + d1) % n], pal[(i + d2) % n]], sched, cyc), "interleaved:three")
+        if offset == 0:
+            res.sample(_inter([pal[3], pal[10], pal[17]], [], [2, 1, 0]), cls="interleaved triple")
+    elif what == "hyp":
+        _, seed, n = arg
+        hyp.search(inter_st(), run_case, res, n, seed, ID,
+                   nontrivial=lambda c: LAST_INTER[0] is not None and LAST_INTER[0][0] == id(c) and LAST_INTER[0][1] and _differ(c),
+                   classify=lambda c: ["hyp:interleaved:%d" % len(c["jobs"])] + sorted(set("hyp:interleaved:has-" + j["kind"] for j in c["jobs"])),
+                   extra_rounds_budget_s=10.0)
+    return res
+
+
+def inter_st():
+    @st.composite
+    def job(draw, short):
+        kind = draw(st.sampled_from(["types", "types", "qgroups", "setgroups", "setgroups", "setgroups", "stream", "gstream", "sgfault"]))
+        if kind == "types":
+            return {"kind": "types", "types": sorted(draw(st.lists(st.one_of(st.integers(0, 253), st.sampled_from([0, 1, 6, 8])),
+                                                                max_size=6, unique=True))),
+                    "short": short, "as_int": draw(st.booleans())}
+        if kind == "qgroups":
+            return {"kind": "qgroups", "mask": draw(st.integers(0, 0xFFFF)), "short": short}
+        if kind == "setgroups":
+            cur, req, d, g = draw(st.integers(0, 0xFFFF)), draw(st.integers(0, 0xFFFF)), draw(st.sampled_from(DEST_KINDS)), draw(st.integers(0, 15))
+            if d == "group":
+                cur |= 1 << g
+            return {"kind": "setgroups", "cur": cur, "req": req, "dest": d, "g": g, "others": draw(st.integers(0, 2))}
+        if kind == "stream":
+            return {"kind": "stream", "stream": draw(st.lists(st.sampled_from(ALPHABET + [2, 3, 100, 253]), min_size=1, max_size=8))}
+        vals = ["none", "err", "err255", 0, 1, 0x80, 0xFF, 0x55]
+        if kind == "gstream":
+            return {"kind": "gstream", "stream": [draw(st.sampled_from(vals)), draw(st.sampled_from(vals))]}
+        bad = draw(st.sampled_from(["none", "err", "err255"]))
+        other = draw(st.sampled_from(vals))
+        return {"kind": "sgfault", "stream": [bad, other] if draw(st.booleans()) else [other, bad]}
+
+    @st.composite
+    def gen(draw):
+        n = draw(st.sampled_from([2, 2, 3]))
+        short = draw(st.sampled_from([17, 17, 0, 63, 9]))
+        jobs = [draw(job(short)) for _ in range(n)]
+        sched = draw(st.lists(st.integers(0, n - 1), max_size=24))
+        cycle = draw(st.one_of(st.just([]), st.permutations(list(range(n))), st.lists(st.integers(0, n - 1), min_size=1, max_size=6)))
+        return _inter(jobs, sched, list(cycle))
+
+    return gen()
+
+
+def _dispatch(arg):
+    if arg[0] == "inter":
+        return _shard_inter(arg[1:])
+    return _shard(arg)
 
 
 # -------------------------------------------------------------- shards ----
@@ -337,6 +911,24 @@ def _shard(arg):
                     run({"kind": "types", "types": list(combo), "short": 9, "as_int": as_int}, nt=len(combo) > 1,
                         label="types:len%d" % len(combo))
         res.sample({"kind": "types", "types": [0, 6, 8], "short": 9}, cls="device types")
+    elif kind == "types-lengths":
+        # the multi-type protocol (255, then QUERY NEXT DEVICE TYPE until 254) with well-behaved lists of every length
+        _, offset, stride = arg
+        for n in range(offset, 255, stride):
+            for si, shape in enumerate(("first", "last", "spread")):
+                t = long_types(n, shape)
+                run({"kind": "types", "types": t, "short": (n + si) % 64, "as_int": bool((n + si) & 1)}, nt=n > 1,
+                    label="types:len%s" % (n if n < 3 else "3-16" if n <= 16 else "17-64" if n <= 64 else "65-254"))
+                if n >= 2 and shape != "last":
+                    run({"kind": "stream", "stream": [255] + t + [254]}, nt=True, label="stream:well-behaved-long-list")
+        res.sample({"kind": "types", "types": long_types(17, "spread"), "short": 9}, cls="many device types")
+    elif kind == "history":
+        _, seed, offset, stride = arg
+        hs = fixed_histories(seed)
+        for h in hs[offset::stride]:
+            run(h, nt=history_nontrivial(h), label="history:" + "+".join(sorted(set(x[0] for x in h["steps"]))))
+        if offset == 0:
+            res.sample(hs[2], cls="history with the caller editing a returned set")
     elif kind == "qgroups":
         _, lo, hi, stride = arg
         for m in range(lo, hi, stride):
@@ -378,11 +970,17 @@ def _shard(arg):
         res.sample({"kind": "gstream", "stream": ["err", 1]}, cls="group query fault")
     elif kind == "hyp":
         _, seed, n = arg
-        types_st = st.lists(st.integers(0, 253), min_size=0, max_size=8, unique=True).map(sorted)
+        # short lists, and lists of any length up to all 254 types (a 254-bit pattern says which, `keep` how many)
+        types_st = st.one_of(
+            st.lists(st.integers(0, 253), min_size=0, max_size=8, unique=True).map(sorted),
+            st.tuples(st.integers(0, (1 << 254) - 1), st.one_of(st.integers(0, 254), st.sampled_from([15, 16, 17, 18, 32, 33, 100, 253, 254])))
+            .map(lambda t: [b for b in range(254) if (t[0] >> b) & 1][:t[1]]),
+            st.tuples(st.integers(0, 254), st.sampled_from(["first", "last", "spread"])).map(lambda t: long_types(*t)))
         hyp.search(st.tuples(types_st, st.integers(0, 63), st.booleans()),
                    lambda t: case_types({"kind": "types", "types": t[0], "short": t[1], "as_int": t[2]}),
                    res, n, seed, ID, nontrivial=lambda t: len(t[0]) > 1,
-                   classify=lambda t: ["hyp-types:len%d" % len(t[0])],
+                   classify=lambda t: ["hyp-types:len%s" % (len(t[0]) if len(t[0]) <= 8 else "9-16" if len(t[0]) <= 16 else
+                                                            "17-64" if len(t[0]) <= 64 else "65-254")],
                    to_json=lambda t: {"kind": "types", "types": t[0], "short": t[1], "as_int": t[2]})
         pair = st.tuples(st.integers(0, 0xFFFF), st.integers(0, 0xFFFF), st.sampled_from(DEST_KINDS), st.integers(0, 15))
 
@@ -397,12 +995,18 @@ def _shard(arg):
         hyp.search(longer, lambda s: case_stream({"kind": "stream", "stream": s}), res, n, seed + 2, ID,
                    nontrivial=lambda s: s[0] == 255 and len(s) > 1, classify=lambda s: ["hyp-stream"],
                    to_json=lambda s: {"kind": "stream", "stream": s})
+        hyp.search(history_st(), case_history, res, n, seed + 3, ID, nontrivial=history_nontrivial,
+                   classify=lambda h: ["hyp-history:%d-steps" % len(h["steps"])] + (["hyp-history:read-modify-write"] if any(
+                       x[0] == "setgroups" and x[2][0] == "slot" for x in h["steps"]) else []))
     return res
 
 
 def run(ctx):
     q, s = ctx.quick, ctx.seed
     shards = [("types-universe",), ("gstreams",)]
+    for k in range(4):
+        shards.append(("types-lengths", k, 4))
+        shards.append(("history", s, k, 4))
     st_ = 7 if q else 1
     for k in range(16):
         lo = k << 12
@@ -421,7 +1025,19 @@ def run(ctx):
         shards.append(("streams", [a0], maxlen))
     for k in range(8):
         shards.append(("hyp", s * 1000 + k, 150 if q else 3000))
-    ctx.pmap(_shard, shards)
+    # several sequences in flight at the same time, each on its own bus
+    extra = 6 if q else 30
+    npal = len(palette(s, extra))
+    for first in range(npal):
+        shards.append(("inter", "pairs", s, extra, first, 3 if q else 1))
+    for k in range(8):
+        if k < 4 or not q:
+            shards.append(("inter", "eight", s, extra, 80 if q else 8, (s + k) % 8))
+        shards.append(("inter", "triples", s, extra, 8, k))
+        shards.append(("inter", "hyp", s * 1000 + 100 + k, 200 if q else 3000))
+    ctx.pmap(_dispatch, shards)
     ctx.result.exhaustive = False
     ctx.result.extra["adversarial_stream_max_length"] = maxlen
     ctx.result.extra["setgroups_byte_patterns"] = len(pats)
+    ctx.result.extra["sequences_in_flight"] = ("ordered pairs of a %d-job palette x %d advance orders, first-eight-advance orders, "
+                                               "triples, Hypothesis sample (not exhaustive)" % (npal, len(PAIR_ORDERS)))
